@@ -254,6 +254,39 @@ def check_mps_sweep(rnd):
     return None
 
 
+def check_readout_dispatch():
+    """readout errors are applied whenever a rate is non-zero -- deterministic corners (rates 0 and 1) on product
+    states of qubits and of 3-level atoms, for MPS, StateVector and DensityMatrix"""
+    from emu_mps import MPS
+    from emu_sv import StateVector, DensityMatrix
+    n, shots = 4, 60
+    def product_mps(level, dim):
+        f = []
+        for _ in range(n):
+            t = torch.zeros(1, dim, 1, dtype=torch.complex128)
+            t[0, level, 0] = 1.0
+            f.append(t)
+        return MPS(f, eigenstates=("r", "g") if dim == 2 else ("r", "g", "x"), num_gpus_to_use=0)
+    cases = []
+    for dim in (2, 3):
+        cases += [(f"MPS dim {dim} |r..r>, p_false_neg=1", lambda d=dim: product_mps(1, d).sample(num_shots=shots, p_false_neg=1.0), "0" * n),
+                  (f"MPS dim {dim} |r..r>, no errors", lambda d=dim: product_mps(1, d).sample(num_shots=shots), "1" * n),
+                  (f"MPS dim {dim} |g..g>, p_false_neg=1", lambda d=dim: product_mps(0, d).sample(num_shots=shots, p_false_neg=1.0), "0" * n)]
+    cases += [("MPS dim 2 |g..g>, p_false_pos=1", lambda: product_mps(0, 2).sample(num_shots=shots, p_false_pos=1.0), "1" * n),
+              ("MPS dim 2 |r..r>, both rates 1", lambda: product_mps(1, 2).sample(num_shots=shots, p_false_pos=1.0, p_false_neg=1.0), "0" * n)]
+    psi_r = torch.zeros(2 ** n, dtype=torch.complex128)
+    psi_r[-1] = 1.0
+    cases += [("StateVector |r..r>, p_false_neg=1", lambda: StateVector(psi_r.clone(), gpu=False).sample(num_shots=shots, p_false_neg=1.0), "0" * n),
+              ("StateVector |r..r>, both rates 1", lambda: StateVector(psi_r.clone(), gpu=False).sample(num_shots=shots, p_false_pos=1.0, p_false_neg=1.0), "0" * n),
+              ("DensityMatrix |r..r>, p_false_neg=1",
+               lambda: DensityMatrix(torch.outer(psi_r, psi_r.conj()), gpu=False).sample(num_shots=shots, p_false_neg=1.0), "0" * n)]
+    for label, run, want in cases:
+        got = dict(run())
+        if got != {want: shots}:
+            return f"{label}, {shots} shots: got {got}, expected {{'{want}': {shots}}}"
+    return None
+
+
 def main():
     rec = json.load(open(sys.argv[1])) if len(sys.argv) > 1 and os.path.exists(sys.argv[1]) else {}
     seed = int(os.environ.get("VERIF_SEED", "0"))
@@ -265,7 +298,7 @@ def main():
     try:
         for name, chk in (("readout", lambda: check_readout(rnd, utils)), ("index", check_index_to_bitstring),
                           ("sv", lambda: check_sv(rnd)), ("mps", lambda: check_mps(rnd)),
-                          ("mps-sweep", lambda: check_mps_sweep(rnd))):
+                          ("mps-sweep", lambda: check_mps_sweep(rnd)), ("readout-dispatch", check_readout_dispatch)):
             bad = chk()
             if bad:
                 print(f"REPRODUCED: {bad}")
